@@ -62,6 +62,76 @@ Example ex_linear_model :
   = Ok [Fin (13 # 1); Fin 0; Fin (110 # 1); Fin (116 # 1)]%Q.
 Proof. split; vm_compute; reflexivity. Qed.
 
-(** hypotheses of the attachment theorem are met by the F3 witness data *)
+(** hypotheses of the attachment and noise theorems are met by the F3 witness data *)
 Example ex_put_y_wf : exists y, put_y w_values w_mask = Ok y /\ wf y /\ weight y <> None.
 Proof. eexists. split; [reflexivity|]. split; [reflexivity | discriminate]. Qed.
+
+(** Non-vacuity of the noise theorem on the F3 witness (2 individuals x 1 visit x 2 features, y[0,0,1] missing):
+    the two model tensors differ (5 against 0) only where y is not observed ... *)
+Definition ex_w_y : wt := mkW w_values (Some (tmap to_bool_weight w_mask)).
+
+Example ex_noise_hypotheses :
+  wagree ex_w_y ex_w_y /\ shape w_model_a = shape (value ex_w_y) /\ shape w_model_b = shape w_model_a /\
+  (forall m, inr (shape w_model_a) m -> observed ex_w_y m -> at_ w_model_a m = at_ w_model_b m) /\
+  at_ w_model_a [1; 0; 0] <> at_ w_model_b [1; 0; 0].
+Proof.
+  split.
+  { unfold wagree, wf; simpl. repeat split; auto. }
+  split; [reflexivity|]. split; [reflexivity|]. split.
+  { intros m Hm Ho. unfold inr in Hm. simpl in Hm.
+    destruct Hm as [Hm|[Hm|[Hm|[Hm|[]]]]]; subst m; try reflexivity.
+    exfalso. apply Ho. reflexivity. }
+  vm_compute. discriminate.
+Qed.
+
+(** ... and both give the variance 0 = residual mean square over the 3 observed entries, with BOTH rules
+    (the former scalar rule, which summed model^2 without the mask, gave 25/3 for the first model tensor). *)
+Definition flat_is (r : res (tensor atom)) (rs : list nat) (want : list atom) : bool :=
+  match r with
+  | Ok t => shape_eqb (shape t) rs && list_eqb atom_same (to_flat t) want
+  | Err _ => false
+  end.
+
+Example ex_noise_witness :
+  flat_is (noise_var_scalar ex_w_y w_model_a) [] [Fin 0] = true /\
+  flat_is (noise_var_scalar ex_w_y w_model_b) [] [Fin 0] = true /\
+  flat_is (noise_var_diagonal ex_w_y w_model_a) [2] [Fin 0; Fin 0] = true /\
+  flat_is (noise_var_diagonal ex_w_y w_model_b) [2] [Fin 0; Fin 0] = true /\
+  bind (rss_over_observed ex_w_y w_model_a) (fun r => Ok (atom_same r (Fin 0))) = Ok true.
+Proof. repeat split; vm_compute; reflexivity. Qed.
+
+(** a case with non-zero residuals and garbage under the mask on both sides: y[0,0,1] = NaN (masked), model there
+    +inf; residuals 1-0, 2-2, 3-5: scalar variance (1 + 0 + 4) / 3, per feature (1 + 0) / 2 and 4 / 1;
+    replacing the garbage by -inf / NaN changes nothing *)
+Definition ex_y_nan : wt := mkW (of_flat NaN [2; 1; 2] [Fin 1; NaN; Fin 2; Fin 3]%Q) (Some (tmap to_bool_weight w_mask)).
+Definition ex_y_ninf : wt := mkW (of_flat NaN [2; 1; 2] [Fin 1; NInf; Fin 2; Fin 3]%Q) (Some (tmap to_bool_weight w_mask)).
+Definition ex_model_pinf : tensor atom := of_flat NaN [2; 1; 2] [Fin 0; PInf; Fin 2; Fin 5]%Q.
+Definition ex_model_nan : tensor atom := of_flat NaN [2; 1; 2] [Fin 0; NaN; Fin 2; Fin 5]%Q.
+
+Example ex_noise_garbage :
+  flat_is (noise_var_scalar ex_y_nan ex_model_pinf) [] [Fin (5 # 3)]%Q = true /\
+  flat_is (noise_var_scalar ex_y_ninf ex_model_nan) [] [Fin (5 # 3)]%Q = true /\
+  flat_is (noise_var_diagonal ex_y_nan ex_model_pinf) [2] [Fin (1 # 2); Fin 4]%Q = true /\
+  flat_is (noise_var_diagonal ex_y_ninf ex_model_nan) [2] [Fin (1 # 2); Fin 4]%Q = true /\
+  flat_is (rss_over_observed_per_ft ex_y_nan ex_model_pinf) [2] [Fin (1 # 2); Fin 4]%Q = true.
+Proof. repeat split; vm_compute; reflexivity. Qed.
+
+(** the correspondence checker accepts the model's own value and rejects the value of the former rule *)
+Example ex_check_noise_case :
+  check_noise_case (false, [2; 1; 2], [Fin 1; NaN; Fin 2; Fin 3]%Q, [1; 0; 1; 1]%N, [Fin 1; Fin 5; Fin 2; Fin 3]%Q,
+                    [], [Fin 0]) = true /\
+  check_noise_case (false, [2; 1; 2], [Fin 1; NaN; Fin 2; Fin 3]%Q, [1; 0; 1; 1]%N, [Fin 1; Fin 5; Fin 2; Fin 3]%Q,
+                    [], [Fin (25 # 3)]%Q) = false.
+Proof. split; vm_compute; reflexivity. Qed.
+
+(** non-vacuity of the noise padding theorem: [ex_y_nan] meets its hypotheses; with 2 more visits holding NaN (y)
+    and +inf (model) the variances are the same 5/3 and (1/2, 4), and the padded shapes really are 2 x 3 x 2 *)
+Example ex_noise_padding :
+  wf ex_y_nan /\ weight ex_y_nan <> None /\ length (shape (value ex_y_nan)) = 3 /\
+  shape ex_model_pinf = shape (value ex_y_nan) /\
+  shape (value (wpad VISIT_POS 2 (fun _ => NaN) ex_y_nan)) = [2; 3; 2] /\
+  flat_is (noise_var_scalar (wpad VISIT_POS 2 (fun _ => NaN) ex_y_nan) (tpad VISIT_POS 2 (fun _ => PInf) ex_model_pinf))
+          [] [Fin (5 # 3)]%Q = true /\
+  flat_is (noise_var_diagonal (wpad VISIT_POS 2 (fun _ => NaN) ex_y_nan) (tpad VISIT_POS 2 (fun _ => PInf) ex_model_pinf))
+          [2] [Fin (1 # 2); Fin 4]%Q = true.
+Proof. repeat split; try discriminate; vm_compute; reflexivity. Qed.
